@@ -23,7 +23,7 @@ FILES = {
     "crates/maybenot/src/dist.rs": MC,
     "crates/maybenot/src/counter.rs": ["C08", "C12", "C11", "C05"],
     "crates/maybenot/src/action.rs": ["C12", "C11", "C04", "C05", "C13", "C07"],
-    "crates/maybenot/src/event.rs": ["C05", "C06", "C11", "C20"],
+    "crates/maybenot/src/event.rs": ["C05", "C06", "C11", "C20"] + SIMC,
     "crates/maybenot-simulator/src/lib.rs": SIMC,
     "crates/maybenot-simulator/src/queue.rs": SIMC,
     "crates/maybenot-simulator/src/queue_event.rs": SIMC,
